@@ -8,7 +8,10 @@
    non-concatenated PDUs, malformed segments.  [crun r h] returns, per input,
    the callbacks made during that call (position = timing). *)
 (* Model.CombinerRun: the glue the generated cases evaluate, built with this file *)
-From V Require Import Model.Combiner Model.CombinerRun Spec.CombinerSpec Spec.CombinerSetSpec Proofs.CombinerProofs Proofs.CombinerSetProofs.
+From V Require Import Model.Combiner Model.CombinerRun Model.Compose Model.Splitter Model.ComposeBridge Model.ComposeCombineRun
+  Spec.CombinerSpec Spec.CombinerSetSpec
+  Proofs.CombinerProofs Proofs.CombinerSetProofs Proofs.CombinerOnce Proofs.ComposeCombine.
+From Coq Require Import Permutation.
 Open Scope N_scope.
 
 (* the combiner returns normally on every history of arbitrary PDUs, from any registry *)
@@ -90,6 +93,96 @@ Proof. exact cstep_when. Qed.
 Theorem C10_set_spec : forall k h r outs, Forall seq_octet h -> crun [] h = Ok (r, outs) ->
   outputs_at k h outs = snd (espec_run [] (hist_key k h)).
 Proof. exact combiner_is_set_spec. Qed.
+
+(* ---------------------------------------------------------------- once *)
+(* No arrival is delivered twice.  On any history of pairwise different PDUs
+   (the arrival position is part of a PDU's identity: [number_from] makes any
+   history such), if a PDU q occurs in a callback made at position j1 and in a
+   callback made at position j2, these are the same position and the same
+   callback.  (Each call makes at most one callback: [C10_at_most_one_callback].) *)
+Theorem C10_at_most_once : forall h r outs, NoDup h -> Forall seq_octet h -> crun [] h = Ok (r, outs) ->
+  forall j1 j2 cb1 cb2 q, In cb1 (nth j1 outs []) -> In cb2 (nth j2 outs []) ->
+  In (Some q) cb1 -> In (Some q) cb2 -> j1 = j2 /\ cb1 = cb2.
+Proof. exact at_most_once. Qed.
+Theorem C10_at_most_one_callback : forall r p r1 out, cstep r p = Ok (r1, out) -> (List.length out <= 1)%nat.
+Proof. exact at_most_one_callback. Qed.
+Theorem C10_numbered_histories_are_nodup : forall n h, NoDup (number_from n h).
+Proof. exact number_from_nodup. Qed.
+(* the invariant behind it: what is still stored has arrived and has not been
+   delivered; what has been delivered has arrived *)
+Theorem C10_once_invariant : forall h r outs, NoDup h -> Forall seq_octet h -> crun [] h = Ok (r, outs) ->
+  (forall q, stored r q -> In q h /\ ~ delivered outs q) /\
+  (forall q, delivered outs q -> In q h).
+Proof. exact once_invariant. Qed.
+(* At most once per completion: a delivery drops the entry of its key; traffic
+   of other keys leaves it absent; a later duplicate of a segment of the
+   delivered message (N >= 2) then does not fire — it starts a fresh entry that
+   holds only itself and is incomplete (or, if ill numbered, stores nothing). *)
+Theorem C10_delivery_drops_entry : forall r p r1 out c, cstep r p = Ok (r1, out) -> hdr p = Some c -> out <> [] ->
+  lookup beq_key (key_of p c) r1 = None.
+Proof. exact delivery_drops_entry. Qed.
+Theorem C10_other_traffic_keeps_absent : forall k h r r' outs, crun r h = Ok (r', outs) -> hist_key k h = [] ->
+  lookup beq_key k r = None -> lookup beq_key k r' = None.
+Proof. exact other_traffic_keeps_absent. Qed.
+Theorem C10_duplicate_after_delivery : forall r p r1 out c,
+  lookup beq_key (key_of p c) r = None -> hdr p = Some c -> 2 <= c_total c -> cstep r p = Ok (r1, out) ->
+  out = [] /\
+  (accept c (fresh c) = true ->
+     lookup beq_key (key_of p c) r1 = Some (put_pure (slot_ix c) p (fresh c)) /\
+     full (put_pure (slot_ix c) p (fresh c)) = false) /\
+  (accept c (fresh c) = false -> lookup beq_key (key_of p c) r1 = None).
+Proof. exact duplicate_starts_fresh. Qed.
+
+(* ---------------------------------------------------------- end to end *)
+(* compose -> combine, across the engines of builders gsm7 (Model/Compose.v,
+   Proofs/ComposeProofs.v) and comb.  Generic in the coding (payload type P,
+   its length, the splitter width w, the encoder enc).  [bridge base src dst
+   parts] are the parts as deliver_sm PDUs from src to dst. *)
+
+(* A text composed into N > 1 parts; the parts arrive in ANY order, interleaved
+   with ARBITRARY other traffic (whatever is not filed under (src, dst, ref):
+   the hypothesis only says that the arrivals of that key are a permutation of
+   the parts).  Then at the first N-1 arrivals of parts no callback is made and
+   at the last one exactly one: the N parts in sequence order 1..N. *)
+Theorem C10_compose_then_combine : forall P plen w enc, (forall r, (0 < w r)%nat) ->
+  forall ref t parts base src dst h r outs,
+  ref < 65536 -> compose P plen w enc ref t = Ok parts -> (2 <= List.length parts)%nat ->
+  Forall seq_octet h ->
+  Permutation (hist_key (message_key src dst ref) h) (bridge base src dst parts) ->
+  crun [] h = Ok (r, outs) ->
+  outputs_at (message_key src dst ref) h outs =
+    repeat [] (List.length parts - 1) ++ [[map Some (bridge base src dst parts)]].
+Proof. exact compose_then_combine. Qed.
+(* ... and no other callback of the whole run holds any of the parts *)
+Theorem C10_compose_then_combine_unique : forall P plen w enc, (forall r, (0 < w r)%nat) ->
+  forall ref t parts base src dst h r outs,
+  ref < 65536 -> compose P plen w enc ref t = Ok parts -> (2 <= List.length parts)%nat ->
+  NoDup h -> Forall seq_octet h ->
+  Permutation (hist_key (message_key src dst ref) h) (bridge base src dst parts) ->
+  crun [] h = Ok (r, outs) ->
+  forall j cb m, In cb (nth j outs []) -> In m (bridge base src dst parts) -> In (Some m) cb ->
+    cb = map Some (bridge base src dst parts).
+Proof. exact compose_then_combine_unique. Qed.
+(* hence reassembly: the delivered PDUs paired with their payloads, in delivery
+   order, are the encodings of consecutive pieces whose concatenation is the text *)
+Theorem C10_delivered_payloads_are_the_text : forall P plen w enc, (forall r, (0 < w r)%nat) ->
+  forall ref t parts base src dst, compose P plen w enc ref t = Ok parts ->
+  exists segs, List.concat segs = t /\
+    Forall2 (fun (o : option dsm * P) s => enc s = Ok (snd o))
+            (combine (map Some (bridge base src dst parts)) (map pt_payload parts)) segs.
+Proof. exact delivered_payloads_are_the_text. Qed.
+(* N = 1 (no header): the single PDU is delivered at once, alone, whatever the registry holds *)
+Theorem C10_compose_single_then_combine : forall P plen w enc, (forall r, (0 < w r)%nat) ->
+  forall ref t parts id src dst, compose P plen w enc ref t = Ok parts -> (text_len w t <= max_sm_len)%nat ->
+  exists p, parts = [mkpart [] p] /\
+    forall r, cstep r (dsm_of_part id src dst (mkpart [] p)) = Ok (r, [[Some (dsm_of_part id src dst (mkpart [] p))]]).
+Proof. exact compose_single_then_combine. Qed.
+(* the combiner half on its own: any n segments numbered 1..n of total n under
+   one key, in any order among any other traffic *)
+Theorem C10_combine_numbered : forall k n ms h r outs, (1 <= n)%nat -> numbered n ms ->
+  Forall seq_octet h -> Permutation (hist_key k h) ms -> crun [] h = Ok (r, outs) ->
+  outputs_at k h outs = repeat [] (n - 1) ++ [[map Some ms]].
+Proof. exact combine_numbered. Qed.
 
 (* the hypothesis [seq_octet] holds of every PDU whose UDH values are octets *)
 Theorem C10_seq_octet : forall p, udh_octets (d_udh p) -> seq_octet p.
